@@ -585,14 +585,14 @@ func (w *world) checkState(drv *fusedrv.Driver, b *built, ctxs string, v *vset, 
 
 // runSeq applies one call order to directory dir on a fresh root and compares every
 // reply with the canonical one. ops: "R" = READDIR, "L:<name>" = LOOKUP.
-func (w *world) runSeq(b *built, store string, mode layer.OverlayOpaqueType, dir string, seq []string, canon map[string]string) (bad string, nops int64, err error) {
+func (w *world) runSeq(b *built, store string, mode layer.OverlayOpaqueType, dir string, seq []string, canon map[string]string) (bad string, badStep int, nops int64, err error) {
 	drv, err := w.fresh(b, store, mode)
 	if err != nil {
-		return "", 0, err
+		return "", 0, 0, err
 	}
 	dent, en := drv.Resolve(dir)
 	if en != 0 {
-		return fmt.Sprintf("resolving %s on a fresh root: %v", dir, en), drv.Ops, nil
+		return fmt.Sprintf("resolving %s on a fresh root: %v", dir, en), 0, drv.Ops, nil
 	}
 	for i, op := range seq {
 		var got string
@@ -604,10 +604,10 @@ func (w *world) runSeq(b *built, store string, mode layer.OverlayOpaqueType, dir
 			got = lookupSig(le, en)
 		}
 		if got != canon[op] {
-			return fmt.Sprintf("step %d %s = %s; the same call on a fresh node answers %s", i+1, opName(op, dir), got, canon[op]), drv.Ops, nil
+			return fmt.Sprintf("step %d %s = %s; the same call on a fresh node answers %s", i+1, opName(op, dir), got, canon[op]), i, drv.Ops, nil
 		}
 	}
-	return "", drv.Ops, nil
+	return "", 0, drv.Ops, nil
 }
 
 func opName(op, dir string) string {
@@ -682,7 +682,7 @@ func (w *world) checkOrders(s spec, store string, mode layer.OverlayOpaqueType, 
 		var rec func()
 		rec = func() {
 			if len(seq) == target {
-				bad, n, err := w.runSeq(b, store, mode, dir, seq, canon)
+				bad, badStep, n, err := w.runSeq(b, store, mode, dir, seq, canon)
 				res.Evaluations++
 				res.Transitions += n
 				if err != nil {
@@ -699,12 +699,13 @@ func (w *world) checkOrders(s spec, store string, mode layer.OverlayOpaqueType, 
 					res.Nontrivial++
 				}
 				if bad != "" {
-					last := seq[len(seq)-1]
+					failing := seq[:badStep+1]
+					last := failing[len(failing)-1]
 					shape := "readdir"
 					if last != "R" {
 						shape = "lookup-" + last[2:]
 					}
-					v.add("order-dependent", shape, fmt.Sprintf("%s: tar %s, directory %s\ncall order: %s\n%s", ctxs, describeTar(b.tarb), dir, seqString(seq, dir), bad), caseID{Specs: [][]int{s}, Store: store, Mode: modeNames[mode], Dir: dir, Seq: append([]string{}, seq...)})
+					v.add("order-dependent", shape, fmt.Sprintf("%s: tar %s, directory %s\ncall order: %s\n%s", ctxs, describeTar(b.tarb), dir, seqString(failing, dir), bad), caseID{Specs: [][]int{s}, Store: store, Mode: modeNames[mode], Dir: dir, Seq: append([]string{}, failing...)})
 					return
 				}
 			}
